@@ -95,6 +95,18 @@ func runC08(c *Ctx, r *Report) {
 	r.set("reachable_functions_total", len(ri.order))
 	r.set("reachable_module_functions", len(mods))
 	nv := globalHistory(c, r, ri, "C08-R1-global-write")
+	// which of the package-level accumulators carries state that a later Decode *sees*: one built with a
+	// roll-over width continues its running sum from call to call; one built as a zero value (mask 0)
+	// always yields 0 — written, but without effect on any result (C18's finding, not a history
+	// dependence). Giving such an accumulator its width turns the recorded write into a visible one.
+	for _, al := range liveAccumulators(c) {
+		key := "fit." + al.g.Name() + "/live-state"
+		if al.masked {
+			r.fail("C08-R1-global-write", key, c.pos(al.g.Pos()), "accumulator "+al.g.Name()+" is package-level, never reset, and built with a roll-over width: the values decoded from it depend on every Decode that ran before in the process")
+		} else {
+			r.ok("C08-R1-global-write", key, c.pos(al.g.Pos()), "package-level, but built with mask 0: always yields 0, whatever ran before")
+		}
+	}
 	r.set("package_variables", nv)
 	r.need("package-level variables examined", nv, 150)
 	r.need("reachable module functions", len(mods), 60)
